@@ -455,7 +455,26 @@ func mkDatagram(t *rapid.T, class string, c spec.Call) []byte {
 		d = d[:rapid.IntRange(0, 63).Draw(t, "len")]
 	case "long":
 		n := rapid.SampledFrom([]int{65, 66, 128, 1023, 1024, 1025, 2047, 2048, 2049, 3000, 8192}).Draw(t, "len")
-		d = append(d, make([]byte, n-64)...)
+		switch rapid.IntRange(0, 3).Draw(t, "long.kind") {
+		case 0:
+			// whole well-formed messages back to back (what coalesced TCP writes, or a controller that answers twice in one
+			// datagram, look like): the reply 2..16 times, or the reply followed by a status message of the same controller
+			k := rapid.SampledFrom([]int{2, 2, 3, 16}).Draw(t, "long.frames")
+			one := append([]byte(nil), d...)
+			for i := 1; i < k; i++ {
+				next := append([]byte(nil), one...)
+				if rapid.Bool().Draw(t, "long.status") {
+					next = make([]byte, 64)
+					spec.Header(next, rapid.SampledFrom([]byte{0x17, 0x19}).Draw(t, "long.status.som"), 0x20, c.Serial)
+				}
+				d = append(d, next...)
+			}
+		case 1:
+			// the reply followed by a partial copy of itself
+			d = append(d, d[:rapid.IntRange(1, 63).Draw(t, "long.partial")]...)
+		default:
+			d = append(d, make([]byte, n-64)...)
+		}
 	case "other-serial":
 		s := c.Serial ^ (1 << rapid.IntRange(0, 31).Draw(t, "bit"))
 		if s == 0 {
